@@ -117,6 +117,8 @@ var checks = map[string]*check{
 			// brokered servers that recycle their connections (MaxConnectionAge 6 s): the same ClientConn is used again 9 s and 18 s later
 			{Name: "recycled-transport", Kind: "explore", Scen: "grpcmux_seq", Inst: inst("recycled", "recycled"), Depths: depths([]int{0}, []int{0, 1}), Budget: budget(2*time.Minute, 10*time.Minute)},
 			// an accepting side that begins to serve 2.5 s / 7 s after Accept (slow service set-up before Serve)
+			// the dialler passes connect parameters of its own (2 s timeout and back-off), the acceptor arrives during the back-off
+			{Name: "short-connect", Kind: "explore", Scen: "grpcmux_seq", Inst: inst("short-connect", "short-connect"), Depths: depths([]int{0, 1}, []int{0, 1, 2}), Budget: budget(2*time.Minute, 10*time.Minute)},
 			{Name: "slow-factory", Kind: "explore", Scen: "grpcmux_seq", Inst: inst("slow-factory", "slow-factory"), Depths: depths([]int{1}, []int{1, 2}), Budget: budget(2*time.Minute, 10*time.Minute)},
 			// caller-chosen ids at the edges of uint32 (0, 1, 2^31, 2^32-1)
 			{Name: "id-values", Kind: "explore", Scen: "grpcmux_seq", Inst: inst("ids", "ids"), Depths: depths([]int{1}, []int{1, 2}), Budget: budget(2*time.Minute, 10*time.Minute)},
